@@ -14,7 +14,9 @@ checks, na = [], []
 for pid in ids:
     try:
         mod = importlib.import_module('props.' + pid.lower())
-    except ModuleNotFoundError:
+    except ModuleNotFoundError as e:
+        if e.name != 'props.' + pid.lower():
+            raise           # a dependency of the check is missing in this interpreter (run with /venv/bin/python): never drop a claim for that
         na.append({'property_id': pid, 'reason': 'check not built yet (see DESIGN.md section 6 for the planned model and theorems); not a claim that the technique cannot apply'})
         continue
     checks.append({
